@@ -272,7 +272,7 @@ func runC02(tier string, _ []string) int {
 	c.Assume("the device's own top edge upstream is not compared (deliberately not synchronised); origins and data are not compared (whole-node transfer stamps the sync node as origin); equal timestamps on one identity are not generated")
 	nScen := c.N(16, 128)
 	wd := c.NewWatchdog()
-	corners := []string{"both-write-same-identity", "create-upstream", "create-downstream", "delete-downstream", "delete-upstream", "delete-undelete-downstream", "nested-create-downstream", "nested-create-upstream", "upstream-restart", "mid-pass", "upstream-restart-store-late", "edge-point-upstream", "downstream-restart", "random", "random", "random"}
+	corners := []string{"both-write-same-identity", "create-upstream", "create-downstream", "delete-downstream", "delete-upstream", "delete-undelete-downstream", "nested-create-downstream", "nested-create-upstream", "upstream-restart", "mid-pass", "upstream-restart-store-late", "edge-point-upstream", "downstream-restart", "glued-identities", "glued-identities", "random", "random"}
 	vlib.Parallel(nScen, 4, func(i int) {
 		r := vlib.NewR(c.Seed, "c02", i)
 		s := &syncCase{c: c, wd: wd, i: i, r: r, clock: 1750000000e9, tapped: map[string]bool{}, outage: map[string]bool{}, history: map[string]bool{}}
@@ -413,7 +413,12 @@ func runC02(tier string, _ []string) int {
 		}
 		nodeWrite := func(side string, n *syncNodeRec) error {
 			mark("write@" + side)
-			return s.write(side, false, n.ID, "", data.Point{Type: []string{"value", "description", "units"}[r.Intn(3)], Key: []string{"", "1"}[r.Intn(2)], Time: s.now(), Value: float64(r.Intn(1000)), Text: "t" + r.Ident(3), Origin: "harness"})
+			// (identities whose type+key strings coincide when glued together are included: v/10, v1/0, v1/"")
+			typ, key := []string{"value", "description", "units"}[r.Intn(3)], []string{"", "1"}[r.Intn(2)]
+			if r.Chance(0.35) {
+				typ, key = []string{"v", "v1", "v10"}[r.Intn(3)], []string{"", "0", "10", "1"}[r.Intn(4)]
+			}
+			return s.write(side, false, n.ID, "", data.Point{Type: typ, Key: key, Time: s.now(), Value: float64(r.Intn(1000)), Text: "t" + r.Ident(3), Origin: "harness"})
 		}
 		edgeWrite := func(side string, n *syncNodeRec) error {
 			mark("edgewrite@" + side)
@@ -662,6 +667,28 @@ func runC02(tier string, _ []string) int {
 				step(edgeWrite("U", v1))
 				step(edgeWrite("U", v1))
 				step(edgeWrite("D", v2))
+			case "glued-identities":
+				// two identities of one node whose type and key strings coincide when written one after the
+				// other (v/10 and v1/0); one is written downstream, the other - later - upstream, link down
+				wr := func(side, typ, key string, v float64) {
+					mark("write@" + side)
+					step(s.write(side, false, v1.ID, "", data.Point{Type: typ, Key: key, Time: s.now(), Value: v, Origin: "harness"}))
+				}
+				wr("D", "v", "10", 1)
+				wr("D", "v1", "0", 2)
+				wr("D", "v1", "00", 3)
+				if scErr == nil {
+					barrier()
+				}
+				step(setLink(false))
+				if i%2 == 0 {
+					wr("D", "v", "10", 11)
+					wr("U", "v1", "0", 12)
+				} else {
+					wr("D", "v1", "0", 13)
+					wr("U", "v", "10", 14)
+				}
+				wr("U", "v1", "00", 15)
 			case "mid-pass":
 				// make the hashes differ first so that the pass descends, then write inside it
 				step(nodeWrite("U", v1))
